@@ -144,6 +144,44 @@ func c04Check(c C04Case, cx *h.Ctx) *h.Failure {
 	if d := gm.Diff(model, gm.FromGeom(gm2)); d != "" {
 		return h.Failf("wkb/mixed-endian-differs", "mixed byte order encoding (orders %v) of %s decodes differently: %s\n%x", c.Orders, model, d, mixed)
 	}
+	// (c') the decoded value owns its data: the caller may reuse or clear the input buffer afterwards (database
+	// drivers do), at any alignment of the buffer, and encoders must not hand out storage they will reuse
+	for ai, src := range [][]byte{lib, mixed} {
+		for _, off := range []int{0, 1, 3, 8} {
+			backing := make([]byte, off+len(src))
+			buf := backing[off:]
+			copy(buf, src)
+			dec, err := geom.UnmarshalWKB(buf, geom.NoValidate{})
+			if err != nil {
+				return h.Failf("wkb/decode-own-output", "UnmarshalWKB fails at buffer offset %d: %v", off, err)
+			}
+			var sc geom.Geometry
+			scanned := g.Validate() == nil && sc.Scan(buf) == nil
+			for i := range buf {
+				buf[i] = 0xFF
+			}
+			if d := gm.Diff(model, gm.FromGeom(dec)); d != "" {
+				return h.Failf("wkb/result-aliases-input", "the geometry returned by UnmarshalWKB (encoding %d, buffer offset %d) changed when the input buffer was overwritten: %s", ai, off, d)
+			}
+			if scanned {
+				if d := gm.Diff(model, gm.FromGeom(sc)); d != "" {
+					return h.Failf("wkb/result-aliases-input", "the geometry stored by Scan changed when the source buffer was overwritten: %s", d)
+				}
+			}
+		}
+	}
+	if v1, err := g.Value(); err == nil {
+		keep := append([]byte(nil), v1.([]byte)...)
+		for _, other := range []geom.Geometry{dirty(gm.Polygon), dirty(gm.Point), g} {
+			if _, err := other.Value(); err != nil {
+				return h.Failf("wkb/value-error", "Value(): %v", err)
+			}
+			_ = other.AsBinary()
+		}
+		if !bytes.Equal(v1.([]byte), keep) {
+			return h.Failf("wkb/value-storage-reused", "the []byte returned by Value() changed after later Value()/AsBinary() calls on other geometries")
+		}
+	}
 	// (d) trailing bytes ignored
 	trailing, _ := hex.DecodeString(c.Trailing)
 	g3, err := geom.UnmarshalWKB(append(append([]byte(nil), mixed...), trailing...), geom.NoValidate{})
